@@ -447,3 +447,26 @@ def gen_two_dynamic_flattens(rnd):
                      g1 + g2])
     return Spec(decl, [e], partitioning={"Z": parts}, loop_order={"Z": lo},
                 tags=["flatten", "dynamic-flatten", "two-dynamic-flattens"])
+
+
+def gen_occ_then_shape(rnd):
+    """A rank split by occupancy and then by SHAPE beneath it, with a second input following
+    the leader (K: [uniform_occupancy(A.6), uniform_shape(3)], Z = A[k, m] * B[k, n]).  The
+    unchanged compiler crashes on this family (cyclic flow graph: counted as compiler_crash,
+    never as a violation); it is kept so that a change which makes it "work" is judged."""
+    from .einsum import _acc
+    from ..spec import Term, Einsum as E
+    k, m, n = rnd.sample(["K", "M", "N", "J", "P"], 3)
+    decl = {"A": [k, m], "B": rnd.choice([[k, n], [k], [n, k]]), "Z": rnd.choice([[m, n], [m], [n, m]])}
+    if n not in decl["B"]:
+        decl["Z"] = [m]
+    facs = [_acc("A", decl["A"]), _acc("B", decl["B"])]
+    rnd.shuffle(facs)
+    e = E(_acc("Z", decl["Z"]), [Term("times", facs)])
+    parts = {k: ["uniform_occupancy(%s.%d)" % (rnd.choice(["A", "B"]), rnd.randint(3, 6)),
+                 "uniform_shape(%d)" % rnd.randint(2, 3)]}
+    ranks = [r for r in (k, m, n) if any(r in decl[t] for t in decl)]
+    groups = [[k + "2", k + "1", k + "0"]] + [[r] for r in ranks if r != k]
+    lo = interleave(rnd, groups, True)
+    return Spec(decl, [e], partitioning={"Z": parts}, loop_order={"Z": lo},
+                tags=["occupancy", "occupancy-then-shape"])
